@@ -301,7 +301,21 @@ func runC17(c *fw.Ctx) {
 				src = pd
 				c.Count("store_level_repairs_from_a_persistent_donor", 1)
 			}
-			if err := util.MergeState(context.Background(), src, target); err != nil {
+			if storeKind == 2 && target == part && r.Intn(3) == 0 {
+				// the persistent store refuses the first write of the repair (a transient fault): a repair that reports success
+				// must have stored the nodes (checked below like every repair); one that reports the failure is simply retried
+				grocksdb.Control(disk).FailWrite(0)
+				ferr := util.MergeState(context.Background(), src, target)
+				grocksdb.Control(disk).Restart()
+				if ferr != nil {
+					if err := util.MergeState(context.Background(), src, target); err != nil {
+						fail("MergeState retried after a refused write failed: %v", err)
+					}
+				} else {
+					c.Count("repairs_reporting_success_despite_a_refused_write", 1)
+				}
+				c.Count("store_level_repairs_with_a_refused_write", 1)
+			} else if err := util.MergeState(context.Background(), src, target); err != nil {
 				fail("MergeState failed: %v", err)
 			}
 			c.Count("store_level_repairs", 1)
@@ -621,7 +635,7 @@ func init() {
 			return 4800
 		},
 		Run:    runC17,
-		Floors: map[string]int64{"fat_tries": 50, "removal_sets_above_256_nodes": 35, "store_level_repairs": 15000, "store_level_repairs_into_the_lower_level": 2000, "store_level_repairs_from_a_persistent_donor": 3000, "syncs_after_a_local_delete": 3000, "tries_built_from_version_0": 1500, "handles_with_history_synced_back": 5000, "handles_with_history_synced_back_over_real_deletions": 2000, "tries": 3000, "removal_sets": 50000, "removal:single": 30000, "removal:subtree": 9000, "removal:scattered": 12000, "blocked_lookups": 50000, "repairs_with_foreign_origin": 20000, "tries_with_mixed_origins": 1000, "warm_cache_repairs": 10000, "repaired_child_merged_into_parent": 8000, "synced_state_saved_and_reread": 8000, "repairs_from_layered_donor": 8000},
+		Floors: map[string]int64{"fat_tries": 50, "removal_sets_above_256_nodes": 35, "store_level_repairs": 15000, "store_level_repairs_into_the_lower_level": 2000, "store_level_repairs_with_a_refused_write": 1000, "store_level_repairs_from_a_persistent_donor": 3000, "syncs_after_a_local_delete": 3000, "tries_built_from_version_0": 1500, "handles_with_history_synced_back": 5000, "handles_with_history_synced_back_over_real_deletions": 2000, "tries": 3000, "removal_sets": 50000, "removal:single": 30000, "removal:subtree": 9000, "removal:scattered": 12000, "blocked_lookups": 50000, "repairs_with_foreign_origin": 20000, "tries_with_mixed_origins": 1000, "warm_cache_repairs": 10000, "repaired_child_merged_into_parent": 8000, "synced_state_saved_and_reread": 8000, "repairs_from_layered_donor": 8000},
 		Assumptions: []string{
 			"the donor is a MemoryNodeDB (map iteration order = arbitrary repair order)",
 			"single-node removals are exhaustive up to 24 nodes per trie; other subsets are sampled",
